@@ -98,9 +98,13 @@ type Backoff struct {
 func NewBackoff(c *BackoffConfig) (l *Backoff) {
 	// TODO(ameshkov, a.garipov): Consider adding a job or an endpoint for
 	// purging the caches to free the map bucket space in the caches.
+	// Keep the request counters for at least as long as the requests in them
+	// are counted.
+	reqCountersTTL := max(c.Period, c.IPv4Interval, c.IPv6Interval)
+
 	return &Backoff{
 		// TODO(ameshkov): Consider running the janitor more often.
-		reqCounters:      cache.New(c.Period, c.Period),
+		reqCounters:      cache.New(reqCountersTTL, c.Period),
 		hitCounters:      cache.New(c.Duration, c.Duration),
 		allowlist:        c.Allowlist,
 		respSzEst:        c.ResponseSizeEstimate,
